@@ -46,6 +46,15 @@ theorem input_is_its_lines (ls : List Str) (h : ∀ l ∈ ls, '\n' ∉ l) :
   have := readLines_lines ls h [] (by simp)
   simpa using this
 
+/-- the table the following theorems speak about is the one dshbak builds from the input TEXT -/
+theorem input_text_table (rep : Bool) (ls : List InLine) (h : ∀ l ∈ ls, '\n' ∉ l.text) :
+    processLines rep (readLines ((ls.map InLine.text).flatMap (· ++ ['\n']))) = table rep ls := by
+  rw [input_is_its_lines (ls.map InLine.text) (by
+    intro l hl
+    obtain ⟨x, hx, rfl⟩ := List.mem_map.mp hl
+    exact h x hx)]
+  simp [table, List.map_map, Function.comp_def]
+
 /-- report and -d mode: one block (file) per label, holding exactly that label's lines in their
 original order, whatever order Perl enumerates the hash in -/
 theorem normal_spec (rep : Bool) (ls : List InLine) (h : ∀ l ∈ ls, l.WF) (ks : List Str)
